@@ -459,6 +459,19 @@ class RegisterHandler(Unit):
         got = conn.__dict__['_exception_handlers']
         want = [(f, (E1, E3))] + pre if k == 2 else pre + [(f, (E1, E3))]
         E.check('register.order', got == want, note='early=True inserts at the head, otherwise appends')
+        # another thread registers a handler between a copy of the list and its write-back: nothing may be lost (registration
+        # = ONE atomic list operation; interference injected at the read points of the shared list, as in C13.register)
+        from .c13 import Interfering
+        conn2 = harness_connection()
+        il = Interfering(pre)
+        il.intruder = ('other-thread', (E2,))
+        conn2.__dict__['_exception_handlers'] = il
+        g = lambda e, i: None
+        I.call(raw(Connection, 'register_exception_handler'), conn2, g, E1, **kw)
+        cur = list(list.__iter__(conn2.__dict__['_exception_handlers']))
+        E.check('register.no-lost-update', any(h[0] is g for h in cur if isinstance(h, tuple)) and
+                (not il.fired or il.intruder in cur),
+                note='a handler registered by another thread between the copy and the write-back of a non-atomic update is lost')
         try:
             I.call(raw(Connection, 'register_exception_handler'), conn, f, bogus=1)
             E.check('register.rejects-unknown-keywords', False)
@@ -499,6 +512,22 @@ def replay_register():
                     return dict(confirmed=True, n=n, call='%d handlers registered via %s with early=%r' % (ln, via, flags),
                                 observed='handler order is %r, expected positions %r' % (
                                     [want.index(h) if h in want else '?' for h in c._exception_handlers], list(range(len(want)))))
+    from .c13 import Interfering
+    for early in (False, True):
+        n += 1
+        c = Connection('localhost', 25565)
+        c.register_exception_handler(lambda e, i: None)
+        il = Interfering(c._exception_handlers)
+        il.intruder = (lambda e, i: None, (KeyError,))
+        c._exception_handlers = il
+        g = lambda e, i: None
+        c.register_exception_handler(g, ValueError, early=early)
+        cur = list(list.__iter__(c._exception_handlers))
+        if not any(h[0] is g for h in cur) or (il.fired and il.intruder not in cur):
+            return dict(confirmed=True, n=n, call='register_exception_handler(early=%r) while another thread registers between the '
+                        'copy of the handler list and its write-back' % early,
+                        observed='the list afterwards lacks %s' % ('the other thread\'s handler (lost update)'
+                                                                   if il.fired and il.intruder not in cur else 'the new handler'))
     return dict(confirmed=False, n=n, call='registration sequences', observed='conform')
 
 
